@@ -521,6 +521,13 @@ impl Terminal {
     }
 }
 
+pub(crate) fn terminal_trim_pending(t: &Terminal) -> bool {
+    b_trim_needed(&t.buffer)
+}
+pub(crate) fn terminal_set_trim_pending(t: &mut Terminal) {
+    b_set_trim_needed(&mut t.buffer, true);
+}
+
 pub(crate) fn e_cell(e: &Exp) -> Option<Cell> {
     e.cell
 }
